@@ -141,7 +141,7 @@ class SqliteMixin:
         rowty = TupleT(tys)
         j = z3.Int("j!row")
         comps = [Val(t, db.col(table, c, Rf(j))) for c, t in zip(cols, tys)]
-        items = self.def_array(st, j, to_sort_term(Val(rowty, comps), rowty))
+        items = self.def_array(st, j, to_sort_term(Val(rowty, comps), rowty), also=[Rf(j)])
         rows = self.new_list(rowty, st, n, items)
         rows.x["enum"] = (Rf, n, pos, table)
         return self.new_cursor(st, conn, rows=rows)
